@@ -117,36 +117,8 @@ Proof.
 Qed.
 
 (* ---------------------------------------------------------------------------------------- *)
-(** * The theorems *)
+(** * Normalisation *)
 
-Theorem parse_lines_spec ls t : parse_lines ls = Some t <-> ls = render 0 t.
-Proof.
-  unfold parse_lines. split.
-  - destruct (p_tree (length ls) 0 ls) as [[t' [|x r]]|] eqn:E; try discriminate.
-    intros H; inversion H; subst. apply p_tree_sound in E. rewrite app_nil_r in E. exact E.
-  - intros ->. rewrite <- (app_nil_r (render 0 t)) at 2.
-    rewrite p_tree_complete; [reflexivity|lia].
-Qed.
-
-(* sound and complete *)
-Theorem check_lines_spec ls : check_lines ls = true <-> exists t, ls = render 0 t.
-Proof.
-  unfold check_lines. split.
-  - destruct (parse_lines ls) as [t|] eqn:E; [|discriminate].
-    intros _. exists t. apply parse_lines_spec. exact E.
-  - intros [t Ht]. apply parse_lines_spec in Ht. rewrite Ht. reflexivity.
-Qed.
-
-(* the tree is determined by its lines *)
-Theorem render_inj t t' : render 0 t = render 0 t' -> t = t'.
-Proof.
-  intros H.
-  assert (H1 : parse_lines (render 0 t) = Some t) by (apply parse_lines_spec; reflexivity).
-  assert (H2 : parse_lines (render 0 t) = Some t') by (apply parse_lines_spec; exact H).
-  congruence.
-Qed.
-
-(* "(children 0)" is rejected wherever it occurs *)
 Lemma render_no_zero d t : Forall (fun l => nkids l <> Some 0) (render d t).
 Proof.
   revert d. induction t as [l ks IH] using rose_ind'; intros d. rewrite render_node.
@@ -157,13 +129,64 @@ Proof.
     + inversion IH; subst. apply Forall_app. split; [apply H1|apply IHks; assumption].
 Qed.
 
-Corollary check_lines_rejects_zero ls :
-  Exists (fun l => nkids l = Some 0) ls -> check_lines ls = false.
+Lemma norm_line_id l : nkids l <> Some 0 -> norm_line l = l.
+Proof. destruct l as [i lab [[|k]|]]; cbn; intros H; try reflexivity. congruence. Qed.
+
+Lemma norm_line_idem l : norm_line (norm_line l) = norm_line l.
+Proof. destruct l as [i lab [[|k]|]]; reflexivity. Qed.
+
+(* rendered lines are canonical *)
+Lemma norm_render d t : map norm_line (render d t) = render d t.
 Proof.
-  intros HE. destruct (check_lines ls) eqn:E; [|reflexivity].
-  apply check_lines_spec in E. destruct E as [t ->].
-  pose proof (render_no_zero 0 t) as HF. apply Exists_exists in HE. destruct HE as [l [Hin Hz]].
-  rewrite Forall_forall in HF. specialize (HF l Hin). contradiction.
+  pose proof (render_no_zero d t) as H. induction H as [|l ls Hl _ IH]; [reflexivity|].
+  cbn [map]. rewrite IH, norm_line_id by exact Hl. reflexivity.
+Qed.
+
+(* ---------------------------------------------------------------------------------------- *)
+(** * The theorems *)
+
+Theorem parse_lines_spec ls t : parse_lines ls = Some t <-> map norm_line ls = render 0 t.
+Proof.
+  unfold parse_lines. split.
+  - destruct (p_tree (length ls) 0 (map norm_line ls)) as [[t' [|x r]]|] eqn:E; try discriminate.
+    intros H; inversion H; subst. apply p_tree_sound in E. rewrite app_nil_r in E. exact E.
+  - intros H. rewrite H. rewrite <- (app_nil_r (render 0 t)) at 1.
+    rewrite p_tree_complete; [reflexivity|].
+    rewrite <- (map_length norm_line ls), H. lia.
+Qed.
+
+(* sound and complete: the lines are, up to writing a leaf's count as "(children 0)" or not at
+   all, the rendering of a single rooted tree *)
+Theorem check_lines_spec ls : check_lines ls = true <-> exists t, map norm_line ls = render 0 t.
+Proof.
+  unfold check_lines. split.
+  - destruct (parse_lines ls) as [t|] eqn:E; [|discriminate].
+    intros _. exists t. apply parse_lines_spec. exact E.
+  - intros [t Ht]. apply parse_lines_spec in Ht. rewrite Ht. reflexivity.
+Qed.
+
+(* in particular every rendering is accepted, and lines without "(children 0)" are accepted iff
+   they are literally a rendering *)
+Corollary check_lines_render t : check_lines (render 0 t) = true.
+Proof. apply check_lines_spec. exists t. apply norm_render. Qed.
+
+Corollary check_lines_strict ls :
+  Forall (fun l => nkids l <> Some 0) ls ->
+  (check_lines ls = true <-> exists t, ls = render 0 t).
+Proof.
+  intros H. rewrite check_lines_spec.
+  assert (E : map norm_line ls = ls).
+  { induction H as [|l r Hl _ IH]; [reflexivity|]. cbn [map]. rewrite IH, norm_line_id by exact Hl. reflexivity. }
+  rewrite E. reflexivity.
+Qed.
+
+(* the tree is determined by its lines *)
+Theorem render_inj t t' : render 0 t = render 0 t' -> t = t'.
+Proof.
+  intros H.
+  assert (H1 : parse_lines (render 0 t) = Some t) by (apply parse_lines_spec; apply norm_render).
+  assert (H2 : parse_lines (render 0 t) = Some t') by (apply parse_lines_spec; rewrite norm_render; exact H).
+  congruence.
 Qed.
 
 (* the depth lemma: rendering deeper only shifts the indentation *)
@@ -178,4 +201,61 @@ Proof.
     induction ks as [|k ks IHks]; [reflexivity|]. inversion IH; subst.
     cbn [flat_map]. rewrite map_app. f_equal; [apply H1|apply IHks; assumption]. }
   intros d. rewrite <- (G d 0). f_equal. lia.
+Qed.
+
+(* ---------------------------------------------------------------------------------------- *)
+(** * A line that claims no children is not followed by a deeper line *)
+
+Lemma render_indent_ge t : forall d, Forall (fun l => d <= indent l) (render d t).
+Proof.
+  induction t as [l ks IH] using rose_ind'; intros d. rewrite render_node. constructor; [cbn; lia|].
+  unfold render_forest. apply Forall_forall. intros x Hx. apply in_flat_map in Hx.
+  destruct Hx as [k [Hk Hx]]. rewrite Forall_forall in IH. specialize (IH k Hk (S d)).
+  rewrite Forall_forall in IH. specialize (IH x Hx). lia.
+Qed.
+
+Definition leaf_next_ok (ls : list line) : Prop :=
+  forall pre a b post, ls = pre ++ a :: b :: post -> nkids a = None -> indent b <= indent a.
+
+Lemma forest_leaf_next d ks :
+  Forall (fun k => forall d, leaf_next_ok (render d k)) ks -> leaf_next_ok (render_forest d ks).
+Proof.
+  induction ks as [|k ks IHks]; intros IH pre a b post E Ha.
+  - destruct pre; discriminate.
+  - inversion IH as [|? ? Hk Hks]; subst. rewrite render_forest_cons in E.
+    apply app_eq_app in E. destruct E as [l [[E1 E2]|[E1 E2]]].
+    + destruct l as [|a' l].
+      * cbn in E2. apply (IHks Hks [] a b post); [symmetry; exact E2|exact Ha].
+      * cbn in E2. inversion E2; subst a'. destruct l as [|b' l].
+        -- (* a is the last line of k's rendering, b the first line of the next sibling *)
+           cbn in H1. destruct ks as [|[l2 ks2] ks']; [discriminate|].
+           rewrite render_forest_cons, render_node in H1. inversion H1; subst. cbn [indent].
+           pose proof (render_indent_ge k d) as Hge. rewrite Forall_forall in Hge.
+           apply Hge. rewrite E1. apply in_or_app. right. left. reflexivity.
+        -- cbn in H1. inversion H1; subst b'. apply (Hk d pre a b l); [exact E1|exact Ha].
+    + apply (IHks Hks l a b post); [exact E2|exact Ha].
+Qed.
+
+Lemma render_leaf_next t : forall d, leaf_next_ok (render d t).
+Proof.
+  induction t as [l ks IH] using rose_ind'; intros d pre a b post E Ha.
+  rewrite render_node in E. destruct pre as [|x pre].
+  - cbn in E. inversion E as [[E1 E2]]. subst a. cbn [nkids] in Ha.
+    destruct ks; [discriminate|discriminate].
+  - cbn in E. inversion E as [[E1 E2]].
+    apply (forest_leaf_next (S d) ks IH pre a b post); [exact E2|exact Ha].
+Qed.
+
+(* ... so a "(children 0)" (or suffix-less) line directly followed by a deeper line is rejected *)
+Theorem check_lines_rejects_false_leaf pre a b post :
+  (nkids a = None \/ nkids a = Some 0) -> indent a < indent b ->
+  check_lines (pre ++ a :: b :: post) = false.
+Proof.
+  intros Ha Hb. destruct (check_lines (pre ++ a :: b :: post)) eqn:E; [|reflexivity].
+  apply check_lines_spec in E. destruct E as [t Ht].
+  rewrite map_app in Ht. cbn [map] in Ht. symmetry in Ht.
+  assert (Hn : nkids (norm_line a) = None).
+  { destruct a as [i lab nk]. cbn in *. destruct Ha as [->| ->]; reflexivity. }
+  pose proof (render_leaf_next t 0 _ _ _ _ Ht Hn) as Hle.
+  unfold norm_line in Hle. cbn [indent] in Hle. lia.
 Qed.
